@@ -39,4 +39,48 @@ theorem rinv_run [DecidableEq H] (T : TreeOps H Chain) (bhtRoot : Blocks → H) 
   | nil => exact h
   | cons e rest ih => exact ih _ (rinv_step T bhtRoot root r e h)
 
+/-! ### the signature cache -/
+
+/-- every cached key and every entered verinfo belongs to a prefix that some signature verified for -/
+def SigInv {H Sig K : Type} (verify : Prefix H → Sig → Bool) (key : Prefix H → Nat → K) (st : SigCache H K) : Prop :=
+  (∀ kk, kk ∈ st.valid → ∃ p o s, kk = key p o ∧ verify p s = true) ∧
+  (∀ p o, (p, o) ∈ st.entered → ∃ s, verify p s = true)
+
+theorem sigInv_step {H Sig K : Type} [DecidableEq K] (verify : Prefix H → Sig → Bool) (key : Prefix H → Nat → K)
+    (hkey : ∀ p o p' o', key p o = key p' o' → p = p') (st : SigCache H K) (x : SigIn H Sig)
+    (h : SigInv verify key st) : SigInv verify key (gotSignature verify key st x) := by
+  obtain ⟨hv, he⟩ := h
+  unfold gotSignature
+  split
+  · rename_i hmem
+    refine ⟨hv, ?_⟩
+    intro p o hpo
+    simp only [List.mem_cons, Prod.mk.injEq] at hpo
+    rcases hpo with ⟨hp, _⟩ | hpo
+    · obtain ⟨p', o', s, hk, hs⟩ := hv _ hmem
+      have := hkey _ _ _ _ hk
+      exact ⟨s, by rw [hp, this]; exact hs⟩
+    · exact he p o hpo
+  · split
+    · rename_i hver
+      refine ⟨?_, ?_⟩
+      · intro kk hkk
+        simp only [List.mem_cons] at hkk
+        rcases hkk with hkk | hkk
+        · exact ⟨x.pre, x.offs, x.sig, hkk, hver⟩
+        · exact hv kk hkk
+      · intro p o hpo
+        simp only [List.mem_cons, Prod.mk.injEq] at hpo
+        rcases hpo with ⟨hp, _⟩ | hpo
+        · exact ⟨x.sig, by rw [hp]; exact hver⟩
+        · exact he p o hpo
+    · exact ⟨hv, he⟩
+
+theorem sigInv_foldl {H Sig K : Type} [DecidableEq K] (verify : Prefix H → Sig → Bool) (key : Prefix H → Nat → K)
+    (hkey : ∀ p o p' o', key p o = key p' o' → p = p') (xs : List (SigIn H Sig)) (st : SigCache H K)
+    (h : SigInv verify key st) : SigInv verify key (xs.foldl (gotSignature verify key) st) := by
+  induction xs generalizing st with
+  | nil => exact h
+  | cons x rest ih => exact ih _ (sigInv_step verify key hkey st x h)
+
 end Tahoe.Authentic
